@@ -61,8 +61,8 @@ def run(ctx):
                 n_sites += 1
             _creation_site(ctx, rep, fn, call, nm)
     ctx.floor('tempfile_creation_sites', n_sites, 2)
-    r182(ctx, rep)
-    r183_184(ctx, rep)
+    ctx.attempt(r182, ctx, rep)
+    ctx.attempt(r183_184, ctx, rep)
     # R18.7: a later pass served from the spill file of fromdicts yields the complete sequence: the C01 R1.3
     # obligations (seek to the shared mark before every dump, to the own cursor before every load) of that view
     from . import c01
@@ -164,12 +164,7 @@ def _creation_site(ctx, rep, fn, call, nm):
             rep.violated('R18.1', fn, c, 'self.%s holds a delete=False temporary file but %s.__del__ does not close and '
                          'unlink it' % (attr, fn.cls.name), call)
             return
-        guarded = False
-        for p, ch in enclosing(pm, parent, stop=fn.node):
-            if isinstance(p, ast.If) and any(ch is b for b in p.body):
-                t = norm(p.test)
-                if t in ('not self.%s' % attr, 'self.%s is None' % attr):
-                    guarded = True
+        guarded = _reached_only_when_unset(fn, parent, attr)
         if guarded:
             rep.held('R18.1', fn, c, 'created once (guarded by `not self.%s`) and finalised by __del__' % attr, call)
         else:
@@ -178,6 +173,42 @@ def _creation_site(ctx, rep, fn, call, nm):
                          'the previous file loses its only owner and is never deleted' % attr, call)
         return
     rep.violated('R18.1', fn, c, 'temporary file without a recognised owner', call)
+
+
+def _reached_only_when_unset(fn, stmt, attr):
+    """every path from the function entry to `stmt` has decided that self.<attr> is unset (falsy / None): an enclosing
+    `if not self.attr:`, a guard clause `if self.attr: return`, an else branch ... whatever the spelling"""
+    from ..ladder import paths, atom
+    want_false = 'self.%s' % attr
+    want_true = 'self.%s is None' % attr
+    found = False
+    for p in paths(fn.node.body, {}, enter_loops=True, limit=256):
+        if not any(e is stmt for e in p.effects):
+            continue
+        found = True
+        ok = False
+        for test, outcome in p.free:
+            for t, pol in _conjuncts(test, outcome):
+                txt, neg = atom(t)
+                val = pol if not neg else (not pol)
+                if (txt == want_false and val is False) or (txt == want_true and val is True):
+                    ok = True
+        if not ok:
+            return False
+    return found
+
+
+def _conjuncts(test, outcome):
+    """the atomic tests whose value follows from `test` having the given outcome"""
+    if isinstance(test, ast.UnaryOp) and isinstance(test.op, ast.Not):
+        return _conjuncts(test.operand, not outcome)
+    if isinstance(test, ast.BoolOp):
+        if isinstance(test.op, ast.And) and outcome:
+            return [x for v in test.values for x in _conjuncts(v, True)]
+        if isinstance(test.op, ast.Or) and not outcome:
+            return [x for v in test.values for x in _conjuncts(v, False)]
+        return []
+    return [(test, outcome)]
 
 
 def _is_owner_class(ctx, name):
@@ -236,15 +267,15 @@ def _top_level_calls(body):
                 yield n
 
 
-def _reaches_unlink(ci, fn, depth):
+def _reaches_unlink(ci, fn, depth, bound_unlink=(), bound_name=()):
     if depth > 2:
         return False, 'too deep'
-    # names bound to self.name / default parameters bound to os.unlink
-    unlink_names = {'unlink', 'os.unlink', 'os.remove', 'remove'}
+    # names bound to self.name / default parameters bound to os.unlink / parameters the caller bound to either
+    unlink_names = {'unlink', 'os.unlink', 'os.remove', 'remove'} | set(bound_unlink)
     for p, d in fn.defaults.items():
         if norm(d) in ('os.unlink', 'os.remove', 'unlink'):
             unlink_names.add(p)
-    name_vars = {'self.name'}
+    name_vars = {'self.name'} | set(bound_name)
     for n in own_nodes(fn.node):
         if isinstance(n, ast.Assign) and norm(n.value) == 'self.name' and isinstance(n.targets[0], ast.Name):
             name_vars.add(n.targets[0].id)
@@ -254,7 +285,18 @@ def _reaches_unlink(ci, fn, depth):
         if f in unlink_names and call.args and norm(call.args[0]) in name_vars:
             return True, ''
         if f.startswith('self.') and f[5:] in ci.methods:
-            ok, why = _reaches_unlink(ci, ci.methods[f[5:]], depth + 1)
+            g = ci.methods[f[5:]]
+            params = list(g.posparams)
+            static = any(norm(d) == 'staticmethod' for d in g.node.decorator_list)
+            if not static and params:
+                params = params[1:]
+            bu, bn = set(), set()
+            for p, a in list(zip(params, call.args)) + [(k.arg, k.value) for k in call.keywords if k.arg]:
+                if norm(a) in unlink_names:
+                    bu.add(p)
+                if norm(a) in name_vars:
+                    bn.add(p)
+            ok, why = _reaches_unlink(ci, g, depth + 1, bu, bn)
             if ok:
                 return True, ''
     return False, 'no unconditional unlink(self.name)'
